@@ -358,8 +358,12 @@ def update_parameters(json_object, parameters) -> None:
                 for key in list(json_object.keys()).copy():
                     if key not in ('id', 'type', 'dtype', 'nn'):
                         del json_object[key]
-                # set new tensor
-                json_object['tensor'] = parameters[json_object['id']]['tensor']
+                # set new tensor, with the dtype and kind it had when it was saved
+                saved = parameters[json_object['id']]
+                json_object['tensor'] = saved['tensor']
+                for key in ('dtype', 'nn'):
+                    if key in saved:
+                        json_object[key] = saved[key]
         else:
             for value in json_object.values():
                 update_parameters(value, parameters)
